@@ -14,15 +14,21 @@ Two kinds of statements.
     of the arguments is afterwards in exactly one of: the new list, the return value, the drop
     events of the step (once), or — only for `forget` — leaked.
 (3) The ledger over histories — passed in = stored ⊎ handed back ⊎ destroyed, as a multiset
-    equation — is proved for the owning dictionary operations (`history_ledger`).  For the whole
-    operation language (entry API, iterators with `forget`, clone, bulk construction, set algebra,
-    faults) it is stated as `C02_ledger_full` and NOT proved as one theorem; there (1) and (2) apply.
+    equation — is proved for the owning dictionary operations (`history_ledger`), and, with
+    created, leaked and unreachable objects in the equation, for every safe operation on ONE map
+    register (`history_ledger2`: entry API, all iterators, drains and consuming iterators dropped or
+    forgotten, retain, extend, drop, forget; `history_ledger2_sets` for `V = ()`), through an
+    ownership logic (`Proofs/Own.lean`) whose step lemma (`step_ledger2`) holds in ANY world.
+    For histories over several registers (clone, `==`, serde, set algebra) it is stated as
+    `C02_ledger_full` and NOT proved as one theorem (the scratch-register halves of `clone` and
+    `from_iter` are `Ledger2.clone_conserves` / `Ledger2.from_iter_conserves`); there (1) and (2) apply.
 -/
 import Micromap.Proofs.SysInv
 import Micromap.Props.C03
 import Micromap.Props.C10
 import Micromap.Props.C12
 import Micromap.Proofs.Ledger
+import Micromap.Proofs.Ledger2
 
 namespace Micromap.Props.C02
 open Micromap SetAlg Dict Refine
@@ -227,5 +233,201 @@ def C02_ledger_full : Prop :=
       let sys := (run E R (Sys.init capM capS w) ops).1
       (liveObjs (sys.maps 0) (sys.maps 0).cap ++ liveObjs (sys.maps 1) (sys.maps 1).cap ++ held ++
         sys.w.leaked).Perm created
+
+/-! ### (3') the ledger over histories of every safe single-register operation -/
+
+section Ledger2
+open Ledger Ledger2
+
+/-- **Every object is in exactly one place, over any history of `L2Op`.**
+
+    COVERED (one map register; every operation is the model's `stepMapOp` on it — `l2mrun_is_step` —
+    except `extend`, which is the model's `extendLoop`, the `Extend for Set` — `l2mrun_extend_is_set_extend`):
+    `insert`, `insert_key_value`, `checked_insert` (with the overflow panic / the rejection: both
+    arguments dropped), `get`, `get_key_value`, `contains_key`, `len`, `is_empty`, `capacity`,
+    `with_capacity`, `fmt`, `remove`, `remove_entry`, `clear`, `retain` (the predicate may write
+    through its `&mut V`), `get_mut` / `index` / `index_mut` (followed by a write; `index` of an
+    absent key panics), `get_disjoint_mut` (followed by a write through every returned reference;
+    overlapping keys panic), the borrowing iterators `iter` / `keys` / `values` / `iter_mut` /
+    `values_mut` with any script (`next`, `len`, `size_hint`, `Debug`, `clone`, `count`, `fold`; the
+    `*_mut` kinds write through the references they yield), `drain` with any `take`, the `Drain`
+    dropped OR `mem::forget`-ten, `into_iter` / `into_keys` / `into_values` with any `take`, the
+    iterator dropped OR forgotten (the register holds a fresh `new()` afterwards: stored' = []), the entry chains `entry(k).and_modify(g)*.<fin>`
+    for all 16 terminals (`or_insert`, `or_insert_with`, `or_insert_with_key`, `or_default`, `key`,
+    dropped unused, `OccupiedEntry::{key, get, get_mut, insert, remove, remove_entry, into_mut}`,
+    `VacantEntry::{key, into_key, insert}`), `extend` (the loop `for (k, v) in xs { m.insert(k, v); }`
+    on the register: the body of `from_iter` and of `Extend for Set`, with or without an
+    instrumented source, including the overflow panic in the middle: what was inserted stays, the
+    pair being inserted is dropped, the un-pulled rest of the source is dropped), `drop` of the
+    map (the register holds a fresh `new()` afterwards) and `mem::forget` of the map.
+
+    STATEMENT: from `new()` of any capacity, in a benign world, for ANY user equality (lawful or
+    not) and a value type with drop glue, the history runs without `ub`, and for EVERY weighting
+    `w` of objects that the in-place writes of the history respect (`L2Op.WOk w`: `w (g v) = w v` for
+    the functions `g` written through `&mut V` — a write changes a value in place, it neither
+    creates nor destroys one; no condition for histories without such writes)
+
+        Σ w(passed in) + Σ w(created)
+          = Σ w(stored at the end) + Σ w(unreachable at the end) + Σ w(handed back) + Σ w(dropped) + Σ w(leaked)
+
+    "created" are the clone results in the effect trace (none: `createdOf tr = []`, these
+    operations do not clone — so the left side is just Σ w(passed in); see
+    `Ledger2.clone_conserves` for `clone`), "dropped" the drop log, "leaked" the suffix
+    `World.leaked` grew by (`forget` of the map, of a consuming iterator; an `insert` that
+    overwrites an unreachable slot), and "unreachable" (`Ledger2.garb`, the weight of `garbage`)
+    the ghost-live slots at or beyond `len`: that is where a forgotten `Drain` leaves its
+    un-yielded entries — as in the crate they are not destroyed and not recorded anywhere at that
+    moment; they are leaked in place.  With `w` the indicator of one object: an object passed in
+    once is at the end in exactly one of the five places, and was destroyed at most once.
+    Accounting conventions: a value passed to a terminal that does not consume it
+    (`or_insert_with(|| v)` on an occupied entry — the closure is not run —, `occ_insert v` on a
+    vacant entry, …) counts as handed back; `into_keys` hands back the keys and drops the values.
+
+    STILL OUTSIDE of the full operation language (`Op`): the two `unsafe fn`s (`insert_unchecked`,
+    `get_disjoint_unchecked_mut`), and everything that involves a second register: `eq` (reads
+    two maps), `serde`, `clone_to` and `from_iter` at the system level (their scratch-register
+    halves are `Ledger2.clone_conserves` and `Ledger2.from_iter_conserves`; the assignment to the
+    destination drops its old content: `L2Op.drop`), the set-only operations
+    (`alg`, `sub`, `is_subset`, …; every forwarding `Set` method is the `Map<T, (), N>` method, see
+    `history_ledger2_sets`), histories over several registers, and injected panics (for those the
+    step lemma `Ledger2.l2mrun_cons` still gives: an unwinding step is either an injected panic or
+    exactly balanced). -/
+theorem history_ledger2 (hv : E.vGlue = true) (cap : Nat) (w0 : World K V Q) (hb : Benign w0)
+    (ops : List (L2Op K V Q)) (w : Obj K V → Nat) (hops : ∀ op ∈ ops, op.WOk w) :
+    ∃ sf back tr lk lf, l2mhist E ops ⟨Raw.new cap, w0⟩ = some (sf, back) ∧ Rep sf.r lf ∧
+      WRel w0 sf.w tr ∧ sf.w.leaked = w0.leaked ++ lk ∧ Own.createdOf tr = [] ∧
+      wsum w (ops.flatMap L2Op.inObjs) + wsum w (Own.createdOf tr) =
+        wpairs w lf + garb w sf.r + wsum w back + wsum w (droppedOf tr) + wsum w lk := by
+  obtain ⟨sf, back, tr, lk, lf, h1, h2, _, _, h5, h6, hc, h7⟩ :=
+    l2mhist_conserves (Or.inl hv) ops ⟨Raw.new cap, w0⟩ [] hops (Rep.new cap) (fun _ => List.Pairwise.nil) hb
+  refine ⟨sf, back, tr, lk, lf, h1, h2, h5, h6, hc, ?_⟩
+  have h0 : garb w (Raw.new cap : Raw K V) = 0 := garb_new w cap
+  simp only [wpairs_nil, h0] at h7
+  omega
+
+/-- the restricted form: for histories whose closures do not write (`L2Op.NoWrite`: `retain`
+    predicates that only look, no `and_modify` / `get_mut` writes), EVERY weighting is admissible. -/
+theorem history_ledger2_noWrite (hv : E.vGlue = true) (cap : Nat) (w0 : World K V Q) (hb : Benign w0)
+    (ops : List (L2Op K V Q)) (hops : ∀ op ∈ ops, op.NoWrite) (w : Obj K V → Nat) :
+    ∃ sf back tr lk lf, l2mhist E ops ⟨Raw.new cap, w0⟩ = some (sf, back) ∧ Rep sf.r lf ∧
+      WRel w0 sf.w tr ∧ sf.w.leaked = w0.leaked ++ lk ∧ Own.createdOf tr = [] ∧
+      wsum w (ops.flatMap L2Op.inObjs) + wsum w (Own.createdOf tr) =
+        wpairs w lf + garb w sf.r + wsum w back + wsum w (droppedOf tr) + wsum w lk :=
+  history_ledger2 E hv cap w0 hb ops w (fun op hop => L2Op.WOk_of_noWrite w op (hops op hop))
+
+/-- the same for `V = ()` (the set registers: `Set<T, N>` is a `Map<T, (), N>`) and generally for
+    any `E` — with or without drop glue for values — when the weighting does not see values: then
+    the ledger is about the keys alone. -/
+theorem history_ledger2_sets (cap : Nat) (w0 : World K V Q) (hb : Benign w0)
+    (ops : List (L2Op K V Q)) (w : Obj K V → Nat) (hw0 : ∀ v, w (.v v) = 0) :
+    ∃ sf back tr lk lf, l2mhist E ops ⟨Raw.new cap, w0⟩ = some (sf, back) ∧ Rep sf.r lf ∧
+      WRel w0 sf.w tr ∧ sf.w.leaked = w0.leaked ++ lk ∧ Own.createdOf tr = [] ∧
+      wsum w (ops.flatMap L2Op.inObjs) + wsum w (Own.createdOf tr) =
+        wpairs w lf + garb w sf.r + wsum w back + wsum w (droppedOf tr) + wsum w lk := by
+  have hops : ∀ op ∈ ops, op.WOk w := by
+    intro op _
+    cases op with
+    | retain f => exact fun n k v => by rw [hw0, hw0]
+    | get_mut pr g => exact fun v => by rw [hw0, hw0]
+    | index_mut pr g => exact fun v => by rw [hw0, hw0]
+    | iter R kind g script => exact fun _ v => by rw [hw0, hw0]
+    | get_disjoint_mut g ks => exact fun v => by rw [hw0, hw0]
+    | entry k mods fin =>
+      refine ⟨fun g _ v => by rw [hw0, hw0], ?_⟩
+      cases fin <;> first | exact trivial | exact fun v => by rw [hw0, hw0]
+    | _ => exact trivial
+  obtain ⟨sf, back, tr, lk, lf, h1, h2, _, _, h5, h6, hc, h7⟩ :=
+    l2mhist_conserves (Or.inr hw0) ops ⟨Raw.new cap, w0⟩ [] hops (Rep.new cap) (fun _ => List.Pairwise.nil) hb
+  refine ⟨sf, back, tr, lk, lf, h1, h2, h5, h6, hc, ?_⟩
+  have h0 : garb w (Raw.new cap : Raw K V) = 0 := garb_new w cap
+  simp only [wpairs_nil, h0] at h7
+  omega
+
+/-- `history_ledger` is the special case of the operations of `Ledger.LOp`: the two runners agree. -/
+theorem l2mhist_ofLOp : ∀ (ops : List (LOp K V Q)) (s : St K V Q),
+    l2mhist E (ops.map L2Op.ofLOp) s = lmhist E ops s
+  | [], _ => rfl
+  | op :: ops, s => by
+    simp only [List.map_cons, l2mhist, lmhist, l2mrun_ofLOp]
+    cases lmrun E op s with
+    | ok back s' => simp only [l2mhist_ofLOp ops s']
+    | panic c s' => simp only [l2mhist_ofLOp ops s']
+    | ub => rfl
+
+/-- the step-level fact behind it, in ANY world (injected panics included) and for any user
+    equality, on a container that satisfies the invariant: the step does not reach `ub`; if it
+    returns, `live slots + passed in + created = live slots' + handed back + dropped + leaked`
+    (`Own.Bal`); if it unwinds it hands nothing back, and either the panic is an injected one or
+    the same equation holds with nothing handed back. -/
+theorem step_ledger2 (hv : E.vGlue = true) (w : Obj K V → Nat) (op : L2Op K V Q) (hop : op.WOk w)
+    {s : St K V Q} (hs : Inv E s.r) :
+    match l2mrun E op s with
+    | .ok back s' => Own.Bal Own.notClone w s s' (wsum w op.inObjs) (wsum w back)
+    | .panic c s' => (c = .inject ∧ s.w.inject ≠ none) ∨ Own.Bal Own.notClone w s s' (wsum w op.inObjs) 0
+    | .ub => False := by
+  have hC := l2mrun_cons (P := Own.notClone) (Or.inl hv) op hop hs
+  have hI := l2mrun_opInv E op s hs
+  unfold Own.ConsAt at hC
+  cases hm : l2mrun E op s with
+  | ok back s' => rw [hm] at hC; exact hC
+  | panic c s' =>
+    rw [hm] at hC
+    rcases hC with h | ⟨q, hq, hb⟩
+    · exact Or.inl h
+    · cases hq; exact Or.inr hb
+  | ub => exact absurd hm (Sat.not_ub hI)
+
+/-! ### the operation language contains the new operations; the hypotheses are satisfiable -/
+
+/-- forgotten drains and consuming iterators, entry chains, `retain`, `extend`, `drop`, `forget`
+    are operations of the language, and they are the model's operations. -/
+example : (L2Op.drain 1 true : L2Op Nat Nat Nat).toMapOp = some (.drain 1 true) := rfl
+example : (L2Op.into_iter .keys 2 true : L2Op Nat Nat Nat).toMapOp = some (.into_iter .keys 2 true) := rfl
+example : (L2Op.entry 3 [(· + 1)] (.or_insert 7) : L2Op Nat Nat Nat).toMapOp =
+    some (.entry 3 [(· + 1)] (.or_insert 7)) := rfl
+example : (L2Op.ofLOp (.drain 2) : L2Op Nat Nat Nat) = .drain 2 false := rfl
+example : (L2Op.get_disjoint_mut (· + 1) [.key 1, .key 2] : L2Op Nat Nat Nat).toMapOp =
+    some (.get_disjoint_mut false (· + 1) [.key 1, .key 2]) := rfl
+
+/-- a concrete run: `u64` keys and values with the derived `==`. -/
+def ledgerEnv0 : Env Nat Nat Nat :=
+  { eqK := fun _ a b => a == b, eqQ := fun _ a b => a == b, eqV := fun a b => a == b, borrow := id,
+    clK := fun _ k => k, clV := fun _ v => v }
+
+/-- two inserts, a `drain` that yields one pair and is then FORGOTTEN, two more inserts into the
+    map of capacity 2 -/
+def ledgerOps0 : List (L2Op Nat Nat Nat) :=
+  [.insert 1 10, .insert 2 20, .drain 1 true, .insert 3 30, .insert 4 40]
+
+/-- after the forgotten drain and one insert: one stored pair, nothing recorded as leaked, but the
+    un-yielded pair `(2, 20)` still sits in slot 1 beyond `len`: two unreachable objects … -/
+example : (l2mhist ledgerEnv0 (ledgerOps0.take 4) ⟨Raw.new 2, {}⟩).map
+    (fun r => (r.1.r.len, r.1.w.leaked.length, (garbage r.1.r).length)) = some (1, 0, 2) := by decide
+
+/-- … which the next insert overwrites: now they are in `World.leaked` and nothing is unreachable;
+    two objects (the yielded pair) were handed back. -/
+example : (l2mhist ledgerEnv0 ledgerOps0 ⟨Raw.new 2, {}⟩).map
+    (fun r => (r.1.r.len, r.1.w.leaked.length, (garbage r.1.r).length, r.2.length)) = some (2, 2, 0, 2) := by
+  decide
+
+/-- a weighting by identity of keys (values unweighted … or any weighting invariant under the
+    writes): `WOk` holds for a history that writes through `&mut V`. -/
+example : ∀ op ∈ ([.insert 1 10, .retain (fun _ _ v => (true, v + 1)), .get_mut (.key 1) (· * 2),
+      .entry 1 [(· + 1)] (.occ_get_mut (· + 5)), .drain 1 true, .extend false [(2, 20), (3, 30)],
+      .into_iter .values 1 true, .forget] : List (L2Op Nat Nat Nat)),
+    op.WOk (fun o => match o with | .k k => k + 1 | .v _ => 0) := by
+  intro op hop
+  simp only [List.mem_cons, List.mem_nil_iff, or_false] at hop
+  rcases hop with rfl | rfl | rfl | rfl | rfl | rfl | rfl | rfl <;> simp [L2Op.WOk, Own.finWOk]
+
+/-- … and for histories without in-place writes every weighting is admissible. -/
+example (w : Obj Nat Nat → Nat) : ∀ op ∈ ([.insert 1 10, .drain 0 true, .insert 2 20,
+      .entry 1 [] (.vac_insert 5), .into_iter .keys 1 false, .drop] : List (L2Op Nat Nat Nat)), op.WOk w := by
+  intro op hop
+  simp only [List.mem_cons, List.mem_nil_iff, or_false] at hop
+  rcases hop with rfl | rfl | rfl | rfl | rfl | rfl <;> simp [L2Op.WOk, Own.finWOk]
+
+
+end Ledger2
 
 end Micromap.Props.C02
